@@ -42,6 +42,16 @@ Theorem C13_swap_then_swap_back : forall b st st1 memo1 swap,
 Proof. exact swap_then_swap_back. Qed.
 Print Assumptions C13_swap_then_swap_back.
 
+(* ---- isolated: a plain to_module call writes no tensor content, touches no module it does not visit, and never
+   changes _modules or a module's type *)
+Theorem C13_swap_isolated : forall b st st1 memo1 swap,
+  block_ok (t_heap st) b ->
+  to_module (cfg_of b true) (b_params b) (b_target b) st = TmOk st1 memo1 swap ->
+  t_vals st1 = t_vals st /\ t_next st1 = t_next st /\ struct_same (t_heap st) (t_heap st1)
+  /\ (forall c, z_get memo1 c = None -> hg st1 c = hg st c) /\ (wf_heap (t_heap st) -> wf_heap (t_heap st1)).
+Proof. exact swap_isolated. Qed.
+Print Assumptions C13_swap_isolated.
+
 (* ---- swap_then_restore, programs: any nesting of with-blocks (each on any module of the tree) in which nothing is
    raised restores every slot; holds for the code as it is and for the repaired __exit__ alike *)
 Theorem C13_swap_then_restore : forall fixed x bs lvl st st' evs oc,
